@@ -84,7 +84,51 @@ def arr_getitem(I, arr, idx, env):
             sub = SymArr(arr.name + "_row", arr.ctype, arr.shape[len(idx):], arr=t, readonly=True,
                          memview=arr.memview)
             return sub
+    if len(idx) == 1 and isinstance(idx[0], SliceObj) and idx[0].step is None and not (arr.memview and env is not None and I.is_cy(env)):
+        # ndarray[start:stop] on the first axis (NumPy slice semantics: indices clipped to the array);
+        # the result is modelled as a snapshot (writes through the view are unsupported)
+        n = zint(arr.shape[0])
+
+        def norm(v, default):
+            if v is None:
+                return default
+            v = zint(I.unC(v))
+            v = z3.If(v < 0, v + n, v)
+            return z3.If(v < 0, 0, z3.If(v > n, n, v))
+        lo = norm(idx[0].start, z3.IntVal(0))
+        hi = norm(idx[0].stop, n)
+        length = simp(z3.If(hi > lo, hi - lo, 0))
+        lo = simp(lo)
+        if isinstance(lo, int) and lo == 0:
+            t = arr.arr
+        else:
+            q = z3.Int("q!slice")
+            t = z3.Lambda([q], z3.Select(arr.arr, q + zint(lo)))
+        return SymArr(arr.name + "_slice", arr.ctype, [length] + list(arr.shape[1:]), arr=t, readonly=True)
+    if len(idx) == 1 and isinstance(idx[0], SymArr) and idx[0].ctype == "bool" and len(idx[0].shape) == 1:
+        return mask_select(I, arr, idx[0])
     raise Unsupported(f"array subscript {idx!r}")
+
+
+def mask_select(I, arr, mask):
+    """library contract of ndarray[boolean mask] (first axis): the selected rows in order.
+    RANK(k) = number of selected positions before k (fresh ghost function with its recursion
+    equations); result[RANK(k)] == arr[k] for every selected k; len(result) == RANK(n)."""
+    n = zint(arr.shape[0])
+    rank = z3.Function(I.ctx.fresh_name("RANK"), z3.IntSort(), z3.IntSort())
+    sel = lambda k: z3.Select(mask.arr, k) != 0
+    k, k2 = z3.Ints("k!rk k2!rk")
+    I.ctx.assume(rank(0) == 0)
+    I.ctx.assume(z3.ForAll([k], z3.Implies(k >= 0, rank(k + 1) == rank(k) + z3.If(sel(k), 1, 0))))
+    I.ctx.assume(z3.ForAll([k], z3.Implies(k >= 0, z3.And(rank(k) >= 0, rank(k) <= k))))                 # induction lemma
+    I.ctx.assume(z3.ForAll([k, k2], z3.Implies(z3.And(k >= 0, k <= k2), rank(k) <= rank(k2))))           # induction lemma
+    res = SymArr(arr.name + "_sel", arr.ctype, [rank(n)] + list(arr.shape[1:]))
+    I.ctx.assume(z3.ForAll([k], z3.Implies(z3.And(k >= 0, k < n, sel(k)),
+                                           z3.Select(res.arr, rank(k)) == z3.Select(arr.arr, k))))
+    res.rank = rank
+    res.rank_of = (arr, mask)
+    I.ctx.trusted.add("numpy boolean-mask indexing: selected rows in order (ghost RANK with recursion equations and its monotonicity lemma)")
+    return res
 
 
 def arr_setitem(I, arr, idx, v, env):
@@ -151,6 +195,16 @@ def arr_attr(I, arr, name):
         def copy(I_, a, k):
             return SymArr(arr.name + "_copy", arr.ctype, arr.shape, arr=arr.arr)
         return Native("ndarray.copy", copy)
+    if name == "astype":
+        def astype(I_, a, k):
+            dt = a[0]
+            if dt is I_.builtins.get("bool") or (isinstance(dt, DType) and dt.name == "bool"):
+                # boolean view of an integer mask: element != 0 (used for mask indexing only)
+                v = SymArr(arr.name + "_bool", "bool", arr.shape, arr=arr.arr, readonly=True)
+                v.bool_of = arr
+                return v
+            raise Unsupported("ndarray.astype to a non-bool dtype")
+        return Native("ndarray.astype", astype)
     if name == "base":
         return None
     if name == "__len__":
@@ -234,6 +288,21 @@ def make_module(I):
         items = I_.iter_concrete(src)
         dt = k.get("dtype")
         ct = dt.name if isinstance(dt, DType) else None
+        if items and all(isinstance(x, (tuple, PList)) for x in items):
+            rows = [list(x.items) if isinstance(x, PList) else list(x) for x in items]
+            w = len(rows[0])
+            if any(len(r) != w for r in rows):
+                raise Unsupported("np.array of ragged rows")
+            arr = SymArr("array", ct, [len(rows), w])
+            t = z3.K(z3.IntSort(), z3.K(z3.IntSort(), z3.IntVal(0)))
+            for i, r in enumerate(rows):
+                rt = z3.K(z3.IntSort(), z3.IntVal(0))
+                for j, x in enumerate(r):
+                    c = I_.convert(ct, x, "np.array element") if ct else x
+                    rt = z3.Store(rt, j, zint(I_.unC(c)))
+                t = z3.Store(t, i, rt)
+            arr.arr = t
+            return arr
         arr = SymArr("array", ct, [len(items)])
         t = z3.K(z3.IntSort(), z3.IntVal(0))
         for i, x in enumerate(items):
@@ -287,4 +356,60 @@ def make_module(I):
         z.arr = t
         return z
     ns["full"] = Native("np.full", _full)
+
+    def _ones(I_, a, k):
+        z = _zeros(I_, a, k)
+        one = z3.RealVal(1) if is_float_ctype(z.ctype) else z3.IntVal(1)
+        t = one
+        for _ in z.shape:
+            t = z3.K(z3.IntSort(), t)
+        z.arr = t
+        return z
+    ns["ones"] = Native("np.ones", _ones)
+
+    def _max(I_, a, k):
+        arr = a[0]
+        if not isinstance(arr, SymArr) or len(arr.shape) != 1 or k.get("axis") is not None:
+            raise Unsupported("np.max of this operand")
+        n = zint(arr.shape[0])
+        if I_.ctx.branch(n <= 0):
+            I_.throw("ValueError", "zero-size array to reduction operation maximum which has no identity")
+        r = I_.ctx.fresh_int("npmax")
+        w = I_.ctx.fresh_int("npmax_at")
+        q = z3.Int("q!max")
+        I_.ctx.assume(z3.ForAll([q], z3.Implies(z3.And(q >= 0, q < n), z3.Select(arr.arr, q) <= r)))
+        I_.ctx.assume(z3.And(w >= 0, w < n, z3.Select(arr.arr, w) == r))
+        I_.ctx.trusted.add("np.max: an element of the array that no element exceeds")
+        return CV(arr.ctype, r) if arr.ctype else r
+    ns["max"] = Native("np.max", _max)
+    ns["amax"] = ns["max"]
+
+    def _append(I_, a, k):
+        x, y = a[0], a[1]
+        axis = k.get("axis", a[2] if len(a) > 2 else None)
+        if not (isinstance(x, SymArr) and isinstance(y, SymArr) and axis == 0 and len(x.shape) == len(y.shape)):
+            raise Unsupported("np.append of these operands")
+        m = simp(zint(y.shape[0]))
+        if not isinstance(m, int):
+            raise Unsupported("np.append with a symbolic number of appended rows")
+        n = zint(x.shape[0])
+        t = x.arr
+        for r in range(m):
+            t = z3.Store(t, n + r, z3.Select(y.arr, r))
+        return SymArr(x.name + "_app", x.ctype, [simp(n + m)] + list(x.shape[1:]), arr=t)
+    ns["append"] = Native("np.append", _append)
+
+    def _delete(I_, a, k):
+        x, i = a[0], zint(I_.unC(a[1]))
+        axis = k.get("axis", a[2] if len(a) > 2 else None)
+        if not (isinstance(x, SymArr) and axis == 0):
+            raise Unsupported("np.delete of these operands")
+        n = zint(x.shape[0])
+        if I_.ctx.branch(z3.Or(i < -n, i >= n)):
+            I_.throw("IndexError", "index out of bounds for np.delete")
+        i = z3.If(i < 0, i + n, i)
+        q = z3.Int("q!del")
+        t = z3.Lambda([q], z3.If(q < i, z3.Select(x.arr, q), z3.Select(x.arr, q + 1)))
+        return SymArr(x.name + "_del", x.ctype, [simp(n - 1)] + list(x.shape[1:]), arr=t)
+    ns["delete"] = Native("np.delete", _delete)
     return Module("numpy", ns)
